@@ -46,6 +46,9 @@ def gen(seed: int, tier: str) -> dict[str, Any]:
         if rng.random() < 0.2:
             # a point-to-point frame (transport layer control or data) instead of group data - paced like any other
             ops[-1]["tl"] = rng.choice(["connect", "disconnect", "ack", "nak", "data", "individual"])
+        if rng.random() < 0.12:
+            # the caller gives the send up (timeout / cancelled task) - possibly while it waits in the flow control
+            ops[-1]["cancel_after"] = rng.choice([0.0, 0.001, 0.005, 0.019, 0.05, 0.3])
     tmax = t + 0.3
     n_b = rng.choice([0, 1, 2, 4, 8])
     tb = rng.uniform(0.0, tmax)
@@ -131,6 +134,8 @@ def run(plan: dict[str, Any]) -> dict[str, Any]:
                 rec["out"] = "ok"
             except CommunicationError:
                 rec["out"] = "comm_error"
+            except asyncio.CancelledError:
+                rec["out"] = None if info.get("final") else "cancelled"     # the final sweep is not a caller's decision
             rec["ret"] = R.record("op_return", "user", pid)
             rec["t_ret"] = loop.time()
 
@@ -144,6 +149,9 @@ def run(plan: dict[str, Any]) -> dict[str, Any]:
         def do(op):
             if op["op"] == "send":
                 tasks.append(loop.create_task(do_send(op["id"])))
+                if "cancel_after" in op:
+                    R.extra_faults["send_abandoned_by_caller"] += 1
+                    loop.at(loop.time() + op["cancel_after"], tasks[-1].cancel, label="cancel")
             elif op["op"] == "reconnect":
                 R.extra_faults["disconnect_and_connect_again"] += 1
                 info["reconnect_started"] = loop.time()
@@ -165,6 +173,7 @@ def run(plan: dict[str, Any]) -> dict[str, Any]:
         deadline = loop.time() + 80.0
         while any(not t.done() for t in tasks) and loop.time() < deadline:
             await asyncio.sleep(0.25)
+        info["final"] = True
         for t in tasks:
             if not t.done():
                 t.cancel()
@@ -225,9 +234,14 @@ def run(plan: dict[str, Any]) -> dict[str, Any]:
             s = sum(1 for (n, t, p) in inds if p == pid)
             if s != 1:
                 R.violate("C27.confirmation", f"indications-per-send={s}", f"send {pid} returned; {s} RoutingIndications on the wire")
-    # resume: pending sends leave once the pause is over
-    if busy_in:
-        last_end = max(tb + w / 1000.0 for (nb, tb, w) in busy_in)
+        elif rec["out"] == "cancelled":
+            s = sum(1 for (n, t, p) in inds if p == pid and t > rec["t_ret"] + 1e-9)
+            if s:
+                R.violate("C27.confirmation", "indication-after-abandoned-send",
+                          f"send {pid} was abandoned by its caller; {s} RoutingIndications on the wire afterwards")
+    # resume: pending sends leave once the pause is over - also after another sender was abandoned while it waited
+    if busy_in or any(rec["out"] == "cancelled" for rec in sends.values()):
+        last_end = max([tb + w / 1000.0 for (nb, tb, w) in busy_in], default=0.0)
         nb_ = len(busy_in)
         bound = last_end + 0.05 * nb_ + 0.1 * nb_ + 0.02 * (len(sends) + 1) + 0.2
         for pid, rec in sends.items():
